@@ -106,6 +106,7 @@ fn coverage_keys(scn: &Scenario, cov: &mut BTreeMap<String, u64>) {
                     TSpec::Own { kind, poison, .. } => format!("{}own-{:?}", if *poison { "poisonable-" } else { "" }, kind),
                     TSpec::Tagged(..) => "tagged".to_string(),
                     TSpec::Group { .. } => "group".to_string(),
+                    TSpec::MutRefs { kind, .. } => format!("mutrefs-{:?}", kind),
                     TSpec::OnData { kind, poison, from, .. } => format!("{}{}-{:?}", if *poison { "poisonable-" } else { "" }, if *from { "from" } else if *kind == CollKind::Ref { "new" } else { "new_ref" }, kind),
                 };
                 *cov.entry(format!("{}/{:?}", kind, a.api)).or_insert(0) += 1;
